@@ -61,6 +61,15 @@ STATEMENTS = [
     'B8(x?  += 1) distinct :- T(x);',
     'B9(x, ArgMin{y -> x :- T2(x, y)}, ArgMaxK(y -> x, 2)) :- T(x);',
     'C1("#notcomment", "/* not */", "a;b", "x :- y", "(", "]");',
+    # conjunction and disjunction mixed at one level, in every kind of body
+    'C2(x) :- T(x), x > 1 | U(x);',
+    'C3() = (combine += y :- T(y), y > 1 | U(y));',
+    'C4(s) :- s == Sum{y :- T(y), y > 1 | U(y)};',
+    'C5(x) :- T(x), ~(U(x), x > 1 | V(x));',
+    'C6(x) Max= y :- T2(x, y), y > 1 | T2(y, x);',
+    'C7(x) :- T(x), (U(x), x > 1 | V(x) => W(x));',
+    'C8(x, c? Count= (y :- T2(x, y), y > 0 | T2(y, x))) distinct :- T(x);',
+    'C9(x) :- T(x) | U(x), V(x) | W(x), x > 2;',
 ]
 
 
